@@ -29,7 +29,8 @@ type HStep struct {
 	// Op: set (one byte in place), cut (shorten), push (AppendPushData), push-hex
 	// (AppendPushDataHexString), ops (AppendOpcodes, non-push opcodes only), replace (new
 	// contents written into the same backing array), assign (new contents in a new array),
-	// none (inspect again).
+	// overwrite (round 8: new contents of the SAME length copied over the bytes - same slice,
+	// same length, the way a caller reuses one script buffer), none (inspect again).
 	Op    string  `json:"op"`
 	Pos   int     `json:"pos,omitempty"`
 	Val   byte    `json:"val,omitempty"`
@@ -63,6 +64,11 @@ func applyModel(model []byte, st HStep) ([]byte, error) {
 		model = append(model, st.Bytes...)
 	case "replace", "assign":
 		model = append([]byte(nil), st.Bytes...)
+	case "overwrite":
+		if len(st.Bytes) != len(model) {
+			return nil, fmt.Errorf("harness: overwrite with %d bytes over %d", len(st.Bytes), len(model))
+		}
+		copy(model, st.Bytes)
 	case "none":
 	default:
 		return nil, fmt.Errorf("harness: unknown op %q", st.Op)
@@ -88,6 +94,8 @@ func applyLib(s *bscript.Script, st HStep) error {
 		*s = append((*s)[:0], st.Bytes...)
 	case "assign":
 		*s = append(bscript.Script(nil), st.Bytes...)
+	case "overwrite":
+		copy(*s, st.Bytes)
 	}
 	return nil
 }
@@ -207,7 +215,7 @@ func genHistory(t *rapid.T) History {
 	n := rapid.IntRange(2, 8).Draw(t, "nsteps")
 	for len(c.Steps) < n {
 		var sts []HStep
-		switch op := rapid.SampledFrom([]string{"set", "set", "set", "cut", "push", "push-hex", "ops", "mutate", "mutate", "template", "restore", "grow", "none"}).Draw(t, "op"); op {
+		switch op := rapid.SampledFrom([]string{"set", "set", "set", "cut", "push", "push-hex", "ops", "mutate", "mutate", "template", "restore", "grow", "none", "refill", "refill", "refill"}).Draw(t, "op"); op {
 		case "set":
 			st := HStep{Op: "set", Pos: rapid.IntRange(0, max(len(model)-1, 0)).Draw(t, "pos")}
 			if rapid.IntRange(0, 1).Draw(t, "val_kind") == 0 {
@@ -237,6 +245,33 @@ func genHistory(t *rapid.T) History {
 			sts = []HStep{{Op: rapid.SampledFrom([]string{"replace", "assign"}).Draw(t, "how"), Bytes: b}}
 		case "restore":
 			sts = []HStep{{Op: "replace", Bytes: append([]byte(nil), c.Init...)}}
+		case "refill":
+			// the same buffer, the same length, another instance of the same shape: every push keeps
+			// its header and gets new data (keys keep their prefix byte), opcodes stay
+			nb := append([]byte(nil), model...)
+			if toks, ok, _ := ref.Tokenize(model); ok && len(model) > 0 {
+				salt := rapid.Byte().Draw(t, "salt")
+				for ti, tk := range toks {
+					if !tk.IsPush || len(tk.Data) == 0 {
+						continue
+					}
+					ds := tk.End - len(tk.Data)
+					first := nb[ds]
+					copy(nb[ds:tk.End], fill(len(tk.Data), salt+byte(ti*17)))
+					if len(tk.Data) == 33 || len(tk.Data) == 65 || (len(tk.Data) == 3 && first == 0x6f) {
+						nb[ds] = first // a key prefix; and the "ord" push of an inscription stays
+						if len(tk.Data) == 3 {
+							copy(nb[ds:tk.End], "ord")
+						}
+					}
+				}
+			} else if len(model) > 0 {
+				nb = gen.Bytes(t, len(model), "bytes")
+			}
+			sts = []HStep{{Op: "overwrite", Bytes: nb}}
+			if rapid.IntRange(0, 2).Draw(t, "query_twice") == 0 {
+				sts = append(sts, HStep{Op: "none"})
+			}
 		case "grow":
 			if !ref.IsP2PKHBytes(model) {
 				sts = []HStep{{Op: "replace", Bytes: gen.TplP2PKH(gen.Bytes(t, 20, "hash"))}}
@@ -262,7 +297,7 @@ func TestHistory(t *testing.T) {
 	pbt.Run(t, pbt.Sub[History]{
 		Name: "history", Quick: 24000, Thorough: 400000,
 		Gen: genHistory, Check: checkHistory,
-		EnumDesc: "for each of the 12 fixed template instances and each transaction shape: every byte position overwritten in place with 00 / 4c / 6a / ff / value+1 and then restored (three inspections of one object); cut to every length and restored into the same array; each instance replaced by each other instance (same array and new array); the P2PKH instance grown into an inscription by Append* calls and cut back to 25 bytes",
+		EnumDesc: "for each of the 12 fixed template instances and each transaction shape: every byte position overwritten in place with 00 / 4c / 6a / ff / value+1 and then restored (three inspections of one object); cut to every length and restored into the same array; each instance replaced by each other instance (same array and new array); the P2PKH instance grown into an inscription by Append* calls and cut back to 25 bytes; P2PKH / P2PK / multisig / inscription buffers refilled in place (same slice, same length) with other instances and back",
 		Enum: func(tier string, yield func(History)) {
 			tpls := fixedTemplates()
 			n := 0
@@ -286,6 +321,16 @@ func TestHistory(t *testing.T) {
 						n++
 					}
 				}
+			}
+			// round 8: one buffer refilled in place (same slice, same length) with other instances of the same shape
+			for in := 0; in < 3; in++ {
+				h1, h2 := seq(20, 0x31, 3), seq(20, 0x99, 7)
+				yield(History{In: in, Init: gen.TplP2PKH(h1), Steps: []HStep{{Op: "overwrite", Bytes: gen.TplP2PKH(h2)}, {Op: "none"}, {Op: "overwrite", Bytes: gen.TplP2PKH(h1)}, {Op: "overwrite", Bytes: gen.TplP2PKH(seq(20, 0, 0))}}})
+				yield(History{In: in, Init: gen.TplP2PK(key33(0x02, 0x00)), Steps: []HStep{{Op: "overwrite", Bytes: gen.TplP2PK(key33(0x03, 0x44))}, {Op: "overwrite", Bytes: gen.TplP2PK(key33(0x02, 0x00))}}})
+				yield(History{In: in, Init: gen.TplInscription(h1, []byte("a"), []byte("b"), nil), Steps: []HStep{{Op: "overwrite", Bytes: gen.TplInscription(h2, []byte("c"), []byte("d"), nil)}, {Op: "none"}}})
+				yield(History{In: in, Init: gen.TplMultisig(1, [][]byte{key33(0x03, 0x40)}), Steps: []HStep{{Op: "overwrite", Bytes: gen.TplMultisig(1, [][]byte{key33(0x02, 0x41)})}, {Op: "none"}}})
+				// 25 bytes that are P2PKH, then 25 other bytes that are not, then P2PKH with another hash
+				yield(History{In: in, Init: gen.TplP2PKH(h1), Steps: []HStep{{Op: "overwrite", Bytes: append(gen.TplP2SH(h2), 0x51, 0x51)}, {Op: "overwrite", Bytes: gen.TplP2PKH(h2)}}})
 			}
 			for in := 0; in < 3; in++ {
 				for _, dl := range []int{1, 75, 76, 255, 256} {
